@@ -562,9 +562,10 @@ func (l *commitLog) Truncate(offset int64) error {
 		return nil
 	}
 
-	// Delete all following segments.
+	// Delete all following segments, newest first, such that an interrupted
+	// truncation leaves a log without a gap.
 	deleted := 0
-	for i := idx + 1; i < len(l.segments); i++ {
+	for i := len(l.segments) - 1; i > idx; i-- {
 		if err := l.segments[i].Delete(); err != nil {
 			return err
 		}
